@@ -193,6 +193,7 @@ class Interp:
         self.loop_counter = 0
         self.top_fn_node = None
         self.spec_globals = {}
+        self.local_models = {}
         self.hooks = hooks or {}
         self.ghost_env = {}
         self.trace = []
@@ -308,7 +309,13 @@ class Interp:
         return tuple(self._elts(node.elts, env))
 
     def e_List(self, node, env):
-        return list(self._elts(node.elts, env))
+        items = self._elts(node.elts, env)
+        if any(isinstance(x, SGen) for x in items):
+            g = SGen([], [])
+            for x in items:
+                g = g.chain(x) if isinstance(x, SGen) else SGen(g.parts, g.scalars + [x])
+            return g
+        return list(items)
 
     def e_Set(self, node, env):
         return set(self._elts(node.elts, env))
@@ -318,6 +325,9 @@ class Interp:
         for e in elts:
             if isinstance(e, ast.Starred):
                 v = self.eval(e.value, env)
+                if isinstance(v, SGen):
+                    out.append(v)  # a symbolic bag spliced into a display stays one (flagged) item
+                    continue
                 if sym_iter(v) is not None:
                     raise OutOfReach("star-unpacking of symbolic-length iterable")
                 out.extend(v)
@@ -620,8 +630,12 @@ class Interp:
         return LazyGen(self, node, env)
 
     def e_ListComp(self, node, env):
-        r = self.comprehension_value(node, env, list)
-        return r
+        if len(node.generators) == 1:
+            first = self.eval(node.generators[0].iter, env)
+            if isinstance(first, (SSet, SMap)):
+                return self.symbolic_set_gen(node, env, first)
+            return self.comprehension_value(node, env, list, first)
+        return self.comprehension_value(node, env, list)
 
     def e_SetComp(self, node, env):
         return set(self.iterate_comprehension(node, env))
@@ -629,15 +643,17 @@ class Interp:
     def e_DictComp(self, node, env):
         return dict(self.iterate_comprehension(node, env))
 
-    def comprehension_value(self, node, env, pytype):
+    def comprehension_value(self, node, env, pytype, first=None):
         if len(node.generators) == 1 and not node.generators[0].ifs:
             g = node.generators[0]
-            it = self.eval(g.iter, env)
+            it = first if first is not None else self.eval(g.iter, env)
             si = sym_iter(it)
             if si is not None:
                 s = self.map_symbolic(si, g.target, node.elt, env, pytype)
                 return SList(s) if pytype is list else s
             return pytype(self._iterate_from(node, env, it))
+        if first is not None:
+            return pytype(self._iterate_from(node, env, first))
         return pytype(self.iterate_comprehension(node, env))
 
     def map_symbolic(self, si: "SIter", target, elt, env, pytype):
@@ -709,6 +725,9 @@ class Interp:
         for a in node.args:
             if isinstance(a, ast.Starred):
                 v = self.eval(a.value, env)
+                if isinstance(v, SGen):
+                    args.append(v)
+                    continue
                 if sym_iter(v) is not None:
                     raise OutOfReach("star-args of symbolic length")
                 args.extend(v)
@@ -739,8 +758,8 @@ class Interp:
         if c is not None:
             a = ([self_arg] if self_arg is not None else []) + list(args)
             return c.apply(self, a, kwargs, node)
-        # 2. model
-        m = models.lookup(fn)
+        # 2. model (contract-local models first)
+        m = self.local_models.get(_fn_key(target)) or models.lookup(fn)
         if m is not None:
             r = m(self, args, kwargs)
             if r is not NotImplemented:
@@ -1039,8 +1058,10 @@ class Interp:
         it = self.eval(node.iter, env)
         si = sym_iter(it)
         if si is None:
-            if isinstance(it, (SSet, SMap, SGen)):
-                raise OutOfReach("for-loop over symbolic set")
+            if isinstance(it, (SSet, SMap)):
+                return self.set_loop(node, env, it.keys() if isinstance(it, SMap) else it)
+            if isinstance(it, SGen):
+                raise OutOfReach("for-loop over symbolic bag")
             broke = False
             for item in it:
                 self.bind_target(node.target, item, env)
@@ -1074,6 +1095,36 @@ class Interp:
             self.exec_block(node.orelse, env)
             return
         self.cut_loop(node, env, None)
+
+    def set_loop(self, node, env, S):
+        """`for x in S` over a symbolic set.
+
+        Recognised without an invariant: a body that is a single store `M[x] = e` into a symbolic dict, where `e`
+        does not depend on earlier iterations (evaluated for an arbitrary element).  This is an exact summary of the
+        loop (every element of S is visited once; stores to distinct keys commute): M'[x] = e(x) for x in S."""
+        body = node.body
+        if (len(body) == 1 and isinstance(body[0], ast.Assign) and len(body[0].targets) == 1
+                and isinstance(body[0].targets[0], ast.Subscript) and isinstance(node.target, ast.Name)
+                and isinstance(body[0].targets[0].slice, ast.Name) and body[0].targets[0].slice.id == node.target.id
+                and not node.orelse):
+            M = self.eval(body[0].targets[0].value, env)
+            if isinstance(M, SMap) and _reads_only_at(body[0].value, body[0].targets[0].value, node.target.id):
+                snapshot = M.snapshot()
+
+                def member(x):
+                    return sym.select(S.dom, x)
+
+                def value(x):
+                    sub = Env({node.target.id: S.kind.wrapf(x)}, env)
+                    # reads of M inside e must see the pre-loop map for this key (distinct keys never interfere)
+                    with self.scope(sym.select(S.dom, x)):
+                        v = self.eval(body[0].value, sub)
+                    return sym._elem_term(v, M.vkind)
+
+                M.update_where(member, value)
+                self.trace.append(f"set-loop summarised at line {node.lineno}")
+                return
+        raise OutOfReach(f"for-loop over a symbolic set at line {node.lineno} is not of the summarised form `for x in S: M[x] = e`")
 
     def cut_loop(self, node, env, si):
         ordinal = self._loop_ordinal(node)
@@ -1234,6 +1285,22 @@ def _is_generator(fnode):
         if isinstance(n, (ast.Yield, ast.YieldFrom)):
             return True
     return False
+
+
+def _reads_only_at(rhs, map_expr, var):
+    """In `M[x] = rhs`: every mention of M inside rhs is `M[x]` or `M.get(x, ...)` (so iterations are independent)."""
+    mtxt = ast.unparse(map_expr)
+    ok_nodes = set()
+    for n in ast.walk(rhs):
+        if isinstance(n, ast.Subscript) and ast.unparse(n.value) == mtxt and isinstance(n.slice, ast.Name) and n.slice.id == var:
+            ok_nodes.add(id(n.value))
+        if (isinstance(n, ast.Call) and isinstance(n.func, ast.Attribute) and n.func.attr == "get"
+                and ast.unparse(n.func.value) == mtxt and n.args and isinstance(n.args[0], ast.Name) and n.args[0].id == var):
+            ok_nodes.add(id(n.func.value))
+    for n in ast.walk(rhs):
+        if isinstance(n, (ast.Name, ast.Attribute)) and ast.unparse(n) == mtxt and id(n) not in ok_nodes:
+            return False
+    return True
 
 
 def _assigned_names(loop):
